@@ -585,6 +585,57 @@ func c12rpc(c *Ctx, p *load.Program, idT *types.Named) {
 		R.Check("C12.rpc", R.Key("C12.rpc", shortFn(s.Fn), "alloc:VAAID"), c.sitePos(p, s), "the lookup identifier is built field-for-field from the request", len(bad) == 0, strings.Join(bad, "; "))
 	}
 	R.Floor("C12.rpc", len(seen), 3)
+	// a well-formed request always reaches the store: the only exits before the lookup are a
+	// missing message id, an undecodable emitter address and an over-long batch. Rejecting on the
+	// value of a chain id (0 is the "all chains" target of governance VAAs) would make stored VAAs
+	// unreachable through the RPC.
+	npre := 0
+	for name := range want {
+		var fn *ssa.Function
+		for _, f := range p.SrcFuncs(pkgPublicRPC) {
+			if fname(f) == name {
+				fn = f
+			}
+		}
+		if fn == nil {
+			continue
+		}
+		isLookup := func(i ssa.Instruction) bool {
+			cl, ok := i.(*ssa.Call)
+			if !ok {
+				return false
+			}
+			n := facts.CalleeName(&cl.Call)
+			return strings.HasPrefix(n, "(*N/db.Database).Get") || strings.HasPrefix(n, "(*N/db.Database).Find")
+		}
+		eachInstr(fn, func(i ssa.Instruction) {
+			r, ok := i.(*ssa.Return)
+			if !ok || r.Block().Comment == "recover" || facts.Before(r, isLookup) {
+				return
+			}
+			if len(r.Results) > 0 && isNilConst(r.Results[len(r.Results)-1]) {
+				return // a successful answer (for instance an empty batch)
+			}
+			npre++
+			fs := facts.Atoms(acceptFacts(r))
+			okRej := false
+			for _, at := range fs {
+				switch {
+				case at == "req.MessageId == nil":
+					okRej = true
+				case strings.HasPrefix(at, "N/publicrpc.decodeEmitterAddress(") && strings.HasSuffix(at, "#1 != nil"):
+					okRej = true
+				case strings.HasPrefix(at, "N/publicrpc.validateBatchSize(") && strings.HasSuffix(at, " != nil"), strings.HasPrefix(at, "20 < len("):
+					okRej = true
+				case strings.HasPrefix(at, "encoding/hex.DecodeString(") && strings.HasSuffix(at, "#1 != nil"), strings.HasPrefix(at, "32 != len("):
+					okRej = true
+				}
+			}
+			R.Check("C12.rpc", R.Key("C12.rpc", shortFn(fn), "pre-lookup-exit"), c.rel(p.Pos(instrPos(r))), "the only exits before the store lookup are: no message id, undecodable emitter address, batch too large", okRej,
+				"a request is turned away before the lookup for another reason ("+strings.Join(fs, "; ")+"): a VAA stored under that identifier cannot be fetched")
+		})
+	}
+	R.Floor("C12.rpc.pre-lookup-exits", npre, 3)
 	sort.Strings(info)
 	R.Note("informational (not counted): request-field -> ChainID conversions: %s", strings.Join(info, " | "))
 	// delegation + response bytes
